@@ -253,6 +253,75 @@ def rule_r7(chk, facts):
                    'StructStack==NULL); path ' + ' '.join(w[-5:]))
 
 
+def rule_r10(chk, facts):
+    chk.rule('C03-R10', 'input-tag clean-up procedures are re-entrant: EXITM runs the current tag\'s Cleanup and marks the '
+             'tag empty, GetNextLine() then runs Cleanup again before unlinking it; so no function stored in a Cleanup '
+             'slot dereferences a list head that the same function empties (ClearStringList(&tag->X) or tag->X = NULL) '
+             'unless the path established that it is non-NULL', min_instances=3)
+    P = facts.program('asl')
+    cl = set()
+    for key, fs in P.slots().items():
+        if key.endswith('.Cleanup') and 'InputTag' in key:
+            cl |= set(fs)
+    if len(cl) < 4:
+        raise AnalysisBroken('only %d clean-up procedures found in the Cleanup slot' % len(cl))
+    # precondition: two invocation sites of the slot, one of which leaves the tag linked and marks it empty
+    ex = facts.func('as.c', 'ExpandEXITM')
+    gn = facts.func('as.c', 'GetNextLine')
+
+    def slot_call(f):
+        return [(b, i, ln) for b, i, ln, n in f.nodes() if n[0] == 'call' and isinstance(n[1], (list, tuple)) and
+                strip(n[1])[0] == 'm' and strip(n[1])[2].endswith('.Cleanup')]
+    twice = bool(slot_call(ex)) and bool(slot_call(gn)) and any(
+        is_assign(m) and strip(m[2])[0] == 'm' and strip(m[2])[2].endswith('.IsEmpty') for b, i, ln, m in ex.nodes())
+    if not twice:
+        chk.note('C03-R10: EXITM no longer runs Cleanup itself; the re-entrancy obligation is vacuous')
+    for f in sorted(cl, key=lambda x: x.name):
+        if not f.params:
+            continue
+        tag = ('p', f.params[0]['name'])
+        cleared = set()
+        for b, i, ln, n in f.nodes():
+            if n[0] == 'call' and callee_name(n) in ('ClearStringList', 'ClearStringEntry') and n[2]:
+                a = nocast(n[2][0])
+                if a[0] == 'u' and a[1] == '&':
+                    t = strip(a[2])
+                    if t[0] == 'm' and strip(t[1]) == tag:
+                        cleared.add(t)
+            if is_assign(n) and n[1] == '=' and const_val(n[3]) == 0:
+                t = strip(n[2])
+                if t[0] == 'm' and strip(t[1]) == tag and f.unit.records.get(t[2].split('.')[0]) is not None:
+                    cleared.add(t)
+        for fld in sorted(cleared, key=str):
+            # aliases: locals assigned from the field
+            al = {fld}
+            for b, i, ln, n in f.nodes():
+                if is_assign(n) and n[1] == '=' and strip(n[3]) == fld and strip(n[2])[0] == 'l':
+                    al.add(strip(n[2]))
+            bad = None
+            for b, i, ln, n in f.nodes():
+                q = None
+                if n[0] == 'm' and n[3] == 1:
+                    q = strip(n[1])
+                elif n[0] == 'u' and n[1] == '*':
+                    q = strip(n[2])
+                elif n[0] == 'i':
+                    q = strip(n[1])
+                if q not in al:
+                    continue
+                g1 = nz_guard(fld)
+                g2 = nz_guard(q)
+                okp, w = f.guarded(b, i, lambda l: g1(l) or g2(l))
+                if not okp and twice:
+                    bad = (ln, q, w)
+                    break
+            ok = bad is None
+            chk.ob('C03-R10', '%s:%s:%s' % (f.unit.name, f.name, show(fld)), ok, f.loc(bad[0] if bad else None),
+                   'emptied list head not dereferenced unguarded' if ok else
+                   '%s() dereferences %s, which holds the list head %s that this clean-up empties, without a NULL test: '
+                   'the second Cleanup call after EXITM (ExpandEXITM, then GetNextLine) crashes' % (f.name, show(bad[1]), show(fld)))
+
+
 def run(chk, facts, info):
     rule_r1(chk, facts)
     rule_r2(chk, facts)
@@ -262,6 +331,7 @@ def run(chk, facts, info):
     c08.rule_funcargs(chk, facts, rule='C03-R8')
     from . import c03_nullbelief
     c03_nullbelief.run(chk, facts)
+    rule_r10(chk, facts)
     chk.note('Decided: divisor non-zero (R1), stack-head null guards (R2), external integer bounds (R3), '
              'string-copy capacities (R4). Not decided: hangs, heap lifetime, code generators\' private buffers.')
     chk.assumptions.append('malloc results are non-null; zero-initialised globals with a non-zero default are '
